@@ -199,7 +199,7 @@ def lookaheadCallExpr : List Token → Bool
 def PosKw.str : PosKw → Bytes
   | .offset => B "OFFSET" | .ordinal => B "ORDINAL" | .safeOffset => B "SAFE_OFFSET" | .safeOrdinal => B "SAFE_ORDINAL"
 
-/-- the `switch` of `parseIndexSpecifier` on `p.Token.IsIdent(…)` -/
+/-- the `p.Token.IsIdent(…)` tests of `parseIndexSpecifier` (the first conjunct of its `case`, and the inner `switch`) -/
 def posKwOf (t : Token) : Option PosKw :=
   if t.isIdent (B "OFFSET") then some .offset
   else if t.isIdent (B "ORDINAL") then some .ordinal
@@ -489,6 +489,9 @@ def selLoop : Nat → Expr → List Token → PR
         if cur p.2 = .rbrack then selLoop f (p.1.mk e) p.2.tail else .raise
     | _ => .ok (e, ts)
 
+/-- `case (p.Token.IsIdent("OFFSET") || …) && p.lookaheadToken().Kind == "(":` the position keyword is taken only
+when the NEXT token is `(` (so the `p.expect("(")` that follows cannot fail); otherwise — `a[offset]`,
+`a[ordinal * 2]`, `a[offset.f]` — the word is an ordinary name and the `default:` branch parses an expression -/
 def parseIndexSpecifier : Nat → List Token → Res (IdxSpec × List Token)
   | 0, _ => .outOfFuel
   | f + 1, ts =>
@@ -497,7 +500,7 @@ def parseIndexSpecifier : Nat → List Token → Res (IdxSpec × List Token)
       if cur ts.tail = .lparen then
         (parseExpr f ts.tail.tail).bind fun p =>
           if cur p.2 = .rparen then .ok (.kw k (hd ts).asString p.1, p.2.tail) else .raise
-      else .raise
+      else (parseExpr f ts).bind fun p => .ok (.plain p.1, p.2)
     | none => (parseExpr f ts).bind fun p => .ok (.plain p.1, p.2)
 
 def parseLit : Nat → List Token → PR
